@@ -66,8 +66,22 @@ pub fn pa_check(c: &PaCase, ctx: &mut CaseCtx) -> Result<(), Fail> {
         match op {
             PaOp::Prepare { tx, keys } => {
                 let id = 501 + u64::from(*tx % 6);
-                // a prepare for an already prepared transaction is a retransmission of the same request
+                // a prepare for an already prepared transaction is a retransmission: of the same
+                // request, or (when the generated key list has odd length) of the request enlarged
+                // by further keys — the earlier keys are then all named again, so a grant moves
+                // every lock of the transaction under the new handle and a refusal must leave the
+                // transaction holding exactly what it held
                 let keys: Vec<u8> = match prepared.get(&id) {
+                    Some(k) if keys.len() % 2 == 1 => {
+                        let mut all = k.clone();
+                        all.extend(keys.iter().copied());
+                        if m.blockers(id, &all).is_empty() {
+                            ctx.label("retransmitted prepare (enlarged, grantable)");
+                        } else {
+                            ctx.label("retransmitted prepare (enlarged, meets a held key)");
+                        }
+                        all
+                    },
                     Some(k) => {
                         ctx.label("retransmitted prepare (same keys)");
                         k.clone()
